@@ -483,3 +483,40 @@ def replay(path):
     _, bad = judge_batches(chk, recs, "replay")
     print("verdict:", bad if bad else "accepted by UringOpsTrace")
     return 1 if bad else 0
+
+
+def selftest():
+    """a recorded batch is accepted; with one completion dropped / duplicated / its result changed it is rejected;
+    a stored negative patch makes the check fail"""
+    import copy
+    import subprocess
+    chk = core.Check("C18", "quick", "model_checking")
+    bindir = core.cargo_build(bins=["uring_ops"])
+    bpath = os.path.join(chk.work, "selftest_batches.ndjson")
+    core.write_ndjson(bpath, [dict(b=0, reset=True, ops=[{"op": "statx", "name": 0, "link": True}, {"op": "readv", "h": 0, "len": 0, "link": False},
+                                                        {"op": "mkdirat", "name": 2, "link": False}])])
+    rec = [r for r in run_driver(bindir, bpath, "/tmp/verif-c18-selftest", 8, 0) if r["ev"] == "batch"][0]
+    variants = {"recorded": rec}
+    v = copy.deepcopy(rec); v["cqes"].pop(); variants["completion dropped"] = v
+    v = copy.deepcopy(rec); v["cqes"].append(dict(v["cqes"][0])); variants["completion duplicated"] = v
+    v = copy.deepcopy(rec); v["cqes"][1]["res"] -= 1; variants["result changed"] = v
+    v = copy.deepcopy(rec); v["cqes"][0], v["cqes"][1] = v["cqes"][1], v["cqes"][0]; variants["linked pair reordered"] = v
+    v = copy.deepcopy(rec); v["cqes"][2]["u"] += 77; variants["foreign user_data"] = v
+    v = copy.deepcopy(rec); v["side_same"] = False; variants["worlds differ"] = v
+    ok = True
+    for name, r in variants.items():
+        _, bad = judge_batches(chk, [r], "selftest")
+        print("selftest record '%s': %s" % (name, "rejected (%s)" % bad[0] if bad else "accepted"))
+        ok = ok and (bool(bad) == (name != "recorded"))
+    evs, _ = strace_teardown(chk, bindir, 8, 0, False, 0)
+    for name, ev in {"recorded": evs, "munmap dropped": [e for i, e in enumerate(evs) if not (e["ev"] == "munmap" and i == max(j for j, x in enumerate(evs) if x["ev"] == "munmap"))],
+                     "close doubled": evs[:-1] + [e for e in evs if e["ev"] == "close"] + evs[-1:]}.items():
+        bad = judge_teardown(chk, [ev])
+        print("selftest teardown '%s': %s" % (name, "rejected (%s)" % list(bad.values())[0][0] if bad else "accepted"))
+        ok = ok and (bool(bad) == (name != "recorded"))
+    patch = os.path.join(core.VERIF, "seeded", "C18-drop-closes-twice", "patch.diff")
+    p = subprocess.run([os.path.join(core.VERIF, "bin", "mutant-test"), patch, "C18"], stdout=subprocess.PIPE, stderr=subprocess.STDOUT, text=True)
+    print("selftest negative patch drop-closes-twice: %s" % ("detected" if p.returncode == 0 else "NOT detected"))
+    ok = ok and p.returncode == 0
+    print("C18 selftest", "OK" if ok else "FAILED")
+    return 0 if ok else 1
